@@ -1,12 +1,13 @@
 """C11 Every stored object reads back identically on every read path (Engine A: read histories replayed)."""
 import json
+import subprocess
 import vlib
 
 LEVEL = "model_checking"
 MANIFEST = {
     "engine": "tlc ObjectStoreRead histories + vhpack c11",
     "technique": "TLC enumerates read histories (Get by id and type incl. wrong type, Size, Has, DeltaObject, Packfile.GetByOffset, iterators consumed by one element or fully, prefix search) over the abstract store slot -> (type, location) and computes the expected observation of each read; each history is replayed on a fresh filesystem.Storage over a git-built repository (3 packs with delta chains, loose objects, an object both loose and packed, a 250 KiB blob, an alternate) for rows of the option matrix {object cache full/empty} x {memory/lazy idx} x {LargeObjectThreshold 0/64K} x {ExclusiveAccess} x {mmap}; object bytes are compared with git cat-file --batch-all-objects --batch",
-    "text": "Exhaustive over all read histories of length 2 on an 86-symbol read alphabet (11 slots) plus seeded simulated histories of length 5; each history on 1 (quick, a seeded sixth of the length-2 histories) / 3 (thorough, all) option rows, all 32 rows used; spec theorems (reads are observers, NotFound exactly for absent slots or wrong types) are TLC invariants.",
+    "text": "Exhaustive over all read histories of length 2 on an 86-symbol read alphabet (11 slots) plus seeded simulated histories of length 5; each history on 1 (quick, a seeded sixth of the length-2 histories) / 3 (thorough, all) option rows; the replay is sharded over 2 / 6 harness processes, all 32 rows used; spec theorems (reads are observers, NotFound exactly for absent slots or wrong types) are TLC invariants.",
     "note": "The object universe is one fixed repository per run (SHA-1; SHA-256 when seed % 4 = 3); which packed slots git stores as deltas is git's choice (the delta chain is checked to exist). Concurrent reads are C23's, writes interleaved with reads C18's. git is the interpreter of ids: the expected bytes are git cat-file's.",
 }
 
@@ -25,7 +26,7 @@ def run(ctx):
     r = ctx.tlc("ObjectStoreRead", cfg_text=CFG % 2, cfg="ObjectStoreRead_2.cfg", workers=1, timeout=900)
     ex = ctx.printed_json(r)
     hists += ex
-    num = 100 if ctx.thorough else 4   # TLC prints every successor of the last step: ~86 histories per simulated behaviour
+    num = 60 if ctx.thorough else 4   # TLC prints every successor of the last step: ~86 histories per simulated behaviour
     r2 = ctx.tlc("ObjectStoreRead", cfg_text=CFG % 5, cfg="ObjectStoreRead_5.cfg", mode="simulate", depth=6, num=num, workers=1, timeout=900)
     sim = ctx.printed_json(r2)
     hists += sim
@@ -40,12 +41,40 @@ def run(ctx):
     if not ctx.thorough:
         # quick: every history of length 2 is too many replays for the budget: a seeded sixth, all simulated ones
         uniq = [h for i, h in enumerate(uniq) if len(h) > 2 or i % 6 == ctx.seed % 6]
-    p = ctx.path("c11_hist.ndjson")
-    with open(p, "w") as f:
-        for h in uniq:
-            f.write(json.dumps(h) + "\n")
     per = 3 if ctx.thorough else 1
-    ctx.vh("c11", [p, per], pkg="vhpack", timeout=3000)
+    # the replays are independent (fresh Storage per history and option row): shard them over harness
+    # *processes* (goroutines in one process were measured to be slower than one goroutine)
+    shards = 6 if ctx.thorough else 2
+    paths = []
+    for k in range(shards):
+        p = ctx.path("c11_hist_%d.ndjson" % k)
+        with open(p, "w") as f:
+            for h in uniq[k::shards]:
+                f.write(json.dumps(h) + "\n")
+        paths.append(p)
+    binary = ctx.build(pkg="vhpack")
+    env = vlib.goenv()
+    env.update({"VERIF_SEED": str(ctx.seed), "VERIF_TIER": ctx.tier, "VERIF_SCRATCH": ctx.scratch})
+    procs = [subprocess.Popen([binary, "c11", p, str(per)], stdout=subprocess.PIPE, stderr=subprocess.PIPE, text=True, env=env, cwd=ctx.scratch)
+             for p in paths]
+    reports = []
+    for pr in procs:
+        try:
+            out, errtxt = pr.communicate(timeout=3000)
+        except subprocess.TimeoutExpired:
+            for q in procs:
+                q.kill()
+            raise vlib.ToolingError("harness c11 shard timed out")
+        lines = [l for l in out.splitlines() if l.strip()]
+        if pr.returncode != 0 or not lines:
+            raise vlib.ToolingError("harness c11 rc=%d\n%s" % (pr.returncode, vlib.tail(errtxt)))
+        reports.append(json.loads(lines[-1]))
+    rows_used = 0
+    for rp in reports:
+        rows_used = max(rows_used, rp.get("extra", {}).get("option_rows_used", 0))
+        ctx.absorb(rp)
+    ctx.cov["option_rows_used"] = rows_used
+    ctx.cov["harness_processes"] = shards
     ctx.cov["traces_validated_against_impl"] = len(uniq) * per
     ctx.cov["bounds"] = {"slots": 11, "read_alphabet": 86, "exhaustive_len": 2, "exhaustive_histories": len(ex),
                          "simulated_len": 5, "simulated_histories": len(sim), "replayed_histories": len(uniq), "option_rows": 32, "rows_per_history": per}
